@@ -75,7 +75,7 @@ func settleGoroutines(target int) int {
 }
 
 func c08Run(plan func() (gateway.QueryPlanList, error)) c08Obs {
-	o := c08Obs{GoBefore: settleGoroutines(0)}
+	o := c08Obs{GoBefore: runtime.NumGoroutine()}
 	type res struct {
 		p   gateway.QueryPlanList
 		err error
